@@ -173,8 +173,9 @@ func TileGeometry(s *core.Source, kind int) orb.Geometry {
 	}
 }
 
-var keyPool = []string{"name", "kind", "a", "b", "class", "height", "ref", "", "Name", "A", "name ", "ab"}
-var strPool = []string{"", "x", "1", "true", "road", "é", "a\x00b", "long-value-long-value"}
+// (Go strings are byte strings: the pools include values that are not valid UTF-8 - Latin-1, a cut rune, raw bytes)
+var keyPool = []string{"name", "kind", "a", "b", "class", "height", "ref", "", "Name", "A", "name ", "ab", "stra\xdfe", "\xff"}
+var strPool = []string{"", "x", "1", "true", "road", "é", "a\x00b", "long-value-long-value", "Stra\xdfe", "\xe2\x82", "\xff\xfe\x80", "\ufffd"}
 
 // PropValue draws one property value over {string, bool, every Go integer and float kind, nil, slices/maps}.
 func PropValue(s *core.Source) interface{} {
@@ -275,6 +276,9 @@ func FeatureID(s *core.Source) interface{} {
 	case 3:
 		return uint32(s.Bits("id32"))
 	case 4:
+		if s.Bool("iduint") {
+			return uint(s.Bits("idu64") | 1<<63) // an unsigned id above the int64 range
+		}
 		return s.Bits("idu64")
 	default:
 		return float64(s.Range(0, 1<<20, "idf"))
@@ -291,6 +295,7 @@ type LayerOpts struct {
 // Layers draws a layer list.
 func Layers(s *core.Source, o LayerOpts) mvt.Layers {
 	var ls mvt.Layers
+	var last *geojson.Feature // the feature drawn before this one, in this layer or an earlier one
 	s.Repeat(0, 3, 3, "layer", func(i int) {
 		l := &mvt.Layer{
 			Name:    []string{"roads", "water", "", "poi"}[s.Intn(4, "lname")],
@@ -308,18 +313,22 @@ func Layers(s *core.Source, o LayerOpts) mvt.Layers {
 			f := geojson.NewFeature(TileGeometry(s, s.Pick(w, "gkind")))
 			f.ID = FeatureID(s)
 			f.Properties = Props(s)
-			if n := len(l.Features); n > 0 {
+			if last != nil {
 				// coincidences uniform generation rarely makes: the same property map object,
-				// the same geometry value, or the same id as the previous feature
-				switch s.Pick([]int{12, 1, 1, 1}, "same") {
+				// the same geometry value, the same id as the previous feature - which may be
+				// the last feature of the layer before - or the very same feature object again
+				switch s.Pick([]int{12, 1, 1, 1, 1}, "same") {
 				case 1:
-					f.Properties = l.Features[n-1].Properties
+					f.Properties = last.Properties
 				case 2:
-					f.Geometry = l.Features[n-1].Geometry
+					f.Geometry = last.Geometry
 				case 3:
-					f.ID = l.Features[n-1].ID
+					f.ID = last.ID
+				case 4:
+					f = last
 				}
 			}
+			last = f
 			l.Features = append(l.Features, f)
 		})
 		if o.Repetitive && len(l.Features) > 0 && s.Chance(1, 60, "manykeys") {
@@ -365,6 +374,9 @@ func Layers(s *core.Source, o LayerOpts) mvt.Layers {
 		}
 		ls = append(ls, l)
 	})
+	if len(ls) > 0 && s.Chance(1, 25, "samelayer") {
+		ls = append(ls, ls[s.Intn(len(ls), "which")]) // the same layer object listed twice
+	}
 	return ls
 }
 
